@@ -225,6 +225,32 @@ Proof.
 Qed.
 Print Assumptions C13_drillhole_mask_exact.
 
+(* copy_from_extent of a block model / octree (GridObject.copy with the centroid mask): a child with one value per cell keeps
+   the source value inside the mask and holds the kind's no-data value outside (nan / INTEGER_NDV / False / ""), whatever the
+   data kind; with the repaired blank array (np.full_like(values, child.nan_value)) no kind makes the copy fail *)
+Theorem C13_grid_object_copy_values : forall fill k m v v', length m = length v -> grid_child_copy fill k m v = Ok v' ->
+  length v' = length v /\
+  forall i b x, nth_error m i = Some b -> nth_error v i = Some x -> nth_error v' i = Some (if b then x else ndv k).
+Proof. exact grid_child_copy_spec. Qed.
+Print Assumptions C13_grid_object_copy_values.
+
+Theorem C13_grid_object_copy_total_repaired : forall k m v, exists v', grid_child_copy true k m v = Ok v'.
+Proof. exact grid_child_copy_total. Qed.
+Print Assumptions C13_grid_object_copy_total_repaired.
+
+(* the extent used by every selection is exactly the bounding box of the CURRENT locations: it contains them all
+   (C13_bbox_miss_sound uses that) and each bound is attained by one of them; in the model it is recomputed from the
+   object's vertices at every query, so nothing a caller does to a returned extent, and no earlier query, can change it *)
+Theorem C13_extent_is_bounding_box : forall ps lx hx ly hy lz hz, obj_extent ps = Ok [(lx, hx); (ly, hy); (lz, hz)] ->
+  (forall p, In p ps -> in_box (coords p) [(lx, hx); (ly, hy); (lz, hz)] = true) /\
+  (exists p, In p ps /\ fst (fst p) = lx) /\ (exists p, In p ps /\ fst (fst p) = hx) /\
+  (exists p, In p ps /\ snd (fst p) = ly) /\ (exists p, In p ps /\ snd (fst p) = hy) /\
+  (exists p, In p ps /\ snd p = lz) /\ (exists p, In p ps /\ snd p = hz).
+Proof.
+  intros ps lx hx ly hy lz hz H. split; [intros p Hp; eapply obj_extent_contains; eauto|apply obj_extent_attained; exact H].
+Qed.
+Print Assumptions C13_extent_is_bounding_box.
+
 (* ------------------------------------------------------------------ groups: the copy by extent of a group holds exactly the copies
    of the children whose own selection is not empty, in order, and there is no group copy when there is none *)
 Theorem C13_group_copy : forall (A : Type) (copies : list (option A)),
